@@ -2,5 +2,5 @@ CONSTANTS
   MaxPresence = @MAXP@
 INIT GInit
 NEXT GNext
-INVARIANTS Emit
+INVARIANTS Emit ShapeOK VerdictAll
 CHECK_DEADLOCK FALSE
